@@ -274,6 +274,11 @@ def check(pid, tier, record_baseline=False):
         if ob.backend == "kani":
             n_cex = len([v for v in violations if v[0].backend == "kani"])
             rep = kbackend.counterexample(kov[0], ob.detail.get("full") or ob.what, features=pl.get("kani_features"), returns=(ob.detail.get("panic_kind") == "returns")) if (kov[0] and n_cex < 2) else {"harness": ob.detail.get("full") or ob.what, "note": "counterexample extraction limited to the first two failed harnesses"}
+            if rep.get("rerun_successful"):
+                ob.status = "undecided"
+                ob.detail["reason"] = "the harness failed in the parallel run but verified when re-run alone (resource exhaustion); nothing refuted"
+                undecided.append(ob)
+                continue
             witness = json.dumps(rep.get("values", ""))
             k = known_match(known, pid, ob, witness)
             if k:
